@@ -140,11 +140,23 @@ def run_case(ctx, col, case):
 
 def _run(ctx, col, case, rng, tmp):
     le = rng.choice(["\n", "\r\n"])
-    g = GCodeBuilder(line_endings=le.encode("unicode-escape").decode())
-    ref = RecordingWriter()
-    g.add_writer(ref)
     n = rng.randint(2, 5)
     writers = [W(rng.choice(KINDS), tmp, i) for i in range(n)]
+    cfg = {}
+    from_config = rng.random() < 0.3
+    if from_config:
+        # let the builder create its own path-based writer from the configuration (output=...)
+        cfg["output"] = os.path.join(tmp, "cfg", "configured.gcode")
+    g = GCodeBuilder(line_endings=le.encode("unicode-escape").decode(), **cfg)
+    if from_config:
+        w0 = W("custom", tmp, 99)
+        w0.kind, w0.path, w0.writer = "path", cfg["output"], g.get_writer(0)
+        w0.registered = True
+        writers.append(w0)
+        n += 1
+        col.count("config_created_writers")
+    ref = RecordingWriter()
+    g.add_writer(ref)
     kinds = "+".join(sorted(w.kind for w in writers))
     log = []
     seen = 0
